@@ -8,12 +8,12 @@ ASSUMPTIONS = ['"the first consume that starts after the writer\'s last call ret
 RULE = ('histories as in C11 (capacities from 24 bytes: smaller than one event, forcing replaceChannel with any event size), writers closed immediately after logging, also INSIDE a consume '
         'between the closed test and the poll; reads-from choices incl. stale; (a) model vs real headers; (b) implementation alone on histories ending in two quiescent consumes: every accepted '
         'event delivered exactly once, events of each writer in the order produced; never twice in any history; a directed history replays the stale-read schedule of the D7 finding. '
-        'non-trivial as in C11')
+        'plus implementation-only histories the model has no operations for (a log statement attempted while consume holds the mutex, a failing sink with retry, registrations during a write of reconsumeMetadata, consume while another thread holds the mutex), judged by the same oracle. non-trivial as in C11')
 CHECKS = ('once',)
 DIRECTED = [['nw:1:64:0:', 'as:1:128', 'ev:1:0:01000000000000000500000000000000', 'co:', 'ev:1:0:01000000000000000600000000000000', 'cl:1', 'co:0||', 'co:', 'co:'],
             ['nw:1:64:0:', 'as:1:128', 'ev:1:0:01000000000000000500000000000000', 'co:0||a1.0.01000000000000000700000000000000,c1', 'co:', 'co:']]
 def run(ctx):
-    res = run_session_property(ctx, CHECKS, dict(rotate=False), 'an accepted event was lost, duplicated or reordered on the implementation', extra_cases=[])
+    res = run_session_property(ctx, CHECKS, dict(rotate=False), 'an accepted event was lost, duplicated, reordered or delivered late on the implementation', extra_cases=[], inside=True)
     # the directed histories end quiescently: check them with the exactly-once oracle
     R = Run(ctx, 'drv_session')
     for ops in DIRECTED:
@@ -27,5 +27,6 @@ def run(ctx):
     return res
 def search(ctx):
     c2 = Ctx(ctx.pid, 'quick', ctx.seed + 1, random.Random(ctx.seed + 99), ctx.drivers, True); c2.n = lambda q, t: 6000
-    return [v for v in run(c2)['violations'] if v[1]]
+    found = [v for v in run(c2)['violations'] if v[1]]
+    return found or inside_search(ctx, CHECKS, 'an accepted event is lost, duplicated, reordered or delivered late on the implementation')
 def replay(ctx, rp): return session_replay(ctx, rp, CHECKS)
